@@ -17,6 +17,7 @@ is reached.
 """
 
 import inspect
+import sys
 import io
 import contextlib
 import os
@@ -218,6 +219,16 @@ def df_menu():
     add("clear", "", lambda d, a: d.clear())
     add("deepcopy", "", lambda d, a: d.deepcopy())
     add("compare", "", lambda d, a: d.unique("i").compare(a[0].unique("i"), "i"), 1)
+    # plain Python containers as arguments are arguments too: the caller's list / dict is as it was afterwards
+    add("compare", "ignore_columns list", lambda d, a: d.unique("i").compare(a[0].unique("i"), "i", ignore_columns=a[1]), "frame+names")
+    add("compare", "two identifiers, ignore_columns list", lambda d, a: d.unique("i", "s").compare(a[0].unique("i", "s"), "i", "s", ignore_columns=a[1]), "frame+names")
+    add("slice", "rows and cols as lists", lambda d, a: d.slice(rows=a[0][:d.nrow and 1], cols=a[0]), "intlist")
+    add("slice_off", "cols as list", lambda d, a: d.slice_off(cols=a[0]), "intlist")
+    add("filter", "list of booleans", lambda d, a: d.filter(a[0][:d.nrow]), "boollist")
+    add("filter_out", "list of booleans", lambda d, a: d.filter_out(a[0][:d.nrow]), "boollist")
+    add("from_json", "columns list and dtypes dict", lambda d, a: DataFrame.from_json(d.select("i", "f", "b", "s").to_json(), columns=a[0], dtypes=a[1]), "names+dtypes")
+    add("from_pandas", "dtypes dict", lambda d, a: DataFrame.from_pandas(d.select("i", "f", "b", "s").to_pandas(), dtypes=a[1]), "names+dtypes")
+    add("from_arrow", "dtypes dict", lambda d, a: DataFrame.from_arrow(d.select("i", "f", "b", "s").to_arrow(), dtypes=a[1]), "names+dtypes")
     add("map", "", lambda d, a: d.map(lambda x, i: x.i[i]))
     add("to_arrow", "", lambda d, a: d.unselect("o").to_arrow())
     add("to_arrow", "called on the receiver itself (no object column)", lambda d, a: d.to_arrow(), "noobj")
@@ -388,6 +399,37 @@ def shards(tier):
     return harness.with_array_forms(out, tier, lambda sh: sh["part"] == "bfs" and sh["prefix"] and sh["prefix"][0]["op"] == "observe" and not sh.get("hidden_then_any"))
 
 
+_DEFAULT_HOLDERS = None
+
+
+def lib_defaults():
+    """repr of every mutable (list / dict / set) default argument value of the library's functions and methods."""
+    global _DEFAULT_HOLDERS
+    if _DEFAULT_HOLDERS is None:
+        import inspect, types
+        holders, seen = [], set()
+        mods = [m for name, m in sorted(sys.modules.items()) if name == "dataiter" or name.startswith("dataiter.")]
+        def visit(f):
+            f = getattr(f, "__func__", f)
+            f = inspect.unwrap(f) if callable(f) else f
+            if not isinstance(f, types.FunctionType) or id(f) in seen:
+                return
+            seen.add(id(f))
+            vals = list(f.__defaults__ or ()) + list((f.__kwdefaults__ or {}).values())
+            for v in vals:
+                if isinstance(v, (list, dict, set)):
+                    holders.append((f.__module__ + "." + f.__qualname__, v))
+        for m in mods:
+            for obj in vars(m).values():
+                if getattr(obj, "__module__", "").startswith("dataiter"):
+                    visit(obj)
+                    if isinstance(obj, type):
+                        for member in vars(obj).values():
+                            visit(member)
+        _DEFAULT_HOLDERS = holders
+    return [(name, repr(v)) for name, v in _DEFAULT_HOLDERS]
+
+
 def run_call(rec, what, label, build, fn, case):
     """Execute one call twice (for the two directions of the write test) with all oracles."""
     recv, args = build()
@@ -396,14 +438,22 @@ def run_call(rec, what, label, build, fn, case):
     rec.state(before[0])
     rec.case((before[0], what, label), bool(len(arrays_of(recv)) and arrays_of(recv)[0].size))
     rec.trans()
+    defaults0 = lib_defaults()
     try:
         out = fn(recv, args)
     except Exception as e:
+        if lib_defaults() != defaults0:
+            rec.violation(what, "default-argument-changed", case, "a mutable default argument of a library function was changed by the (failed) call")
+            return
         # Whether the call is valid is other properties' business; what matters here is that operands are unchanged.
         if [snap(x) for x in operands] != before:
             rec.violation(what, "operand-changed-by-failed-call", case, f"{type(e).__name__}: {e}")
         rec.count("calls_raised")
         rec.outcome((what, "raised", type(e).__name__))
+        return
+    if lib_defaults() != defaults0:
+        rec.violation(what, "default-argument-changed", case, "a mutable default argument of a library function (the argument used when the "
+                      "caller gives none, shared by all later calls) was changed by the call")
         return
     after = [snap(x) for x in operands]
     if after != before:
@@ -642,6 +692,14 @@ def check_case(case, rec):
                 return recv, []
             if nargs == "idx":
                 return recv, [np.array([-1, 0], dtype="int64")]
+            if nargs == "frame+names":
+                return recv, [V.frame(operand_cols(max(r, 2), shift=1)), ["f", "b"]]
+            if nargs == "intlist":
+                return recv, [[1, 0]]
+            if nargs == "boollist":
+                return recv, [[True, False, True, True, False, True][:max(r, 1)] if r <= 6 else [i % 3 != 1 for i in range(r)]]
+            if nargs == "names+dtypes":
+                return recv, [["s", "i", "f"], {"i": float, "s": object}]
             if nargs == "ragged2":
                 cols = operand_cols(r, shift=1)
                 a0 = V.frame([c for c in cols if c[0] not in ("f", "s")])
